@@ -67,12 +67,33 @@ func isCRLFSanitizer(f *ssa.Function) bool {
 		if c.Common.Args[0] != ssa.Value(p) {
 			continue
 		}
-		k, ok := constInt(asConst(c.Common.Args[1]))
-		if !ok {
+		// which bytes does the search look for, and on which edge are they known to be absent?
+		var bytesSought []int64
+		if k, ok := constInt(asConst(c.Common.Args[1])); ok {
+			bytesSought = []int64{k}
+		} else if str, ok := constString(asConst(stripValue(c.Common.Args[1]))); ok && (strings.HasSuffix(c.Name, "ContainsAny") || len(str) == 1) {
+			for i := 0; i < len(str); i++ {
+				bytesSought = append(bytesSought, int64(str[i]))
+			}
+		}
+		if len(bytesSought) == 0 {
 			continue
 		}
+		isBool := false
+		if b, ok := c.Value().Type().Underlying().(*types.Basic); ok && b.Kind() == types.Bool {
+			isBool = true
+		}
 		for _, br := range ifsOnValue(f, c.Value()) {
-			if s, ok := br.eqIntSlot(-1, true); ok {
+			s, ok := 0, false
+			if isBool {
+				s, ok = br.truthSlot(false)
+			} else {
+				s, ok = br.eqIntSlot(-1, true)
+			}
+			if !ok {
+				continue
+			}
+			for _, k := range bytesSought {
 				if k == '\r' {
 					cutR = append(cutR, edge{br.If.Block(), s})
 				}
@@ -404,13 +425,38 @@ func runC07(r *Run) {
 		eh := callsMatching(f, false, nameHasSuffix("App).ErrorHandler"))
 		r.need(len(eh) == 1, "serverErrorHandler calls ErrorHandler")
 		errArg := eh[0].Common.Args[2]
-		phi, ok := errArg.(*ssa.Phi)
-		r.need(ok, "the error passed on is a merge of the mapped cases")
+		// the mapped cases: the edges of the merge, or — when the mapping lives in a helper — what the helper returns
+		var leaves []ssa.Value
+		var collect func(v ssa.Value, d int)
+		seenLeaf := map[ssa.Value]bool{}
+		collect = func(v ssa.Value, d int) {
+			v = stripValue(v)
+			if seenLeaf[v] || d > 4 {
+				return
+			}
+			seenLeaf[v] = true
+			switch x := v.(type) {
+			case *ssa.Phi:
+				for _, e := range x.Edges {
+					collect(e, d+1)
+				}
+				return
+			case *ssa.Call:
+				if g := transparentCallee(x.Parent(), x); g != nil {
+					for _, ri := range instrsWhereOne(g, isReturn) {
+						collect(retOperand(ri.(*ssa.Return), 0), d+1)
+					}
+					return
+				}
+			}
+			leaves = append(leaves, v)
+		}
+		collect(errArg, 0)
+		r.need(len(leaves) >= 2, "the error passed on is a merge of the mapped cases")
 		okAll := true
 		has400 := false
 		var codes []string
-		for _, e := range phi.Edges {
-			e = stripValue(e)
+		for _, e := range leaves {
 			switch x := e.(type) {
 			case *ssa.UnOp: // load of a package-level *Error variable
 				gl, isG := x.X.(*ssa.Global)
@@ -438,7 +484,7 @@ func runC07(r *Run) {
 			}
 		}
 		sort.Strings(codes)
-		r.check(okAll && has400 && len(phi.Edges) >= 6, "serverErrorHandler:mapping", r.pos(eh[0].Instr), "every branch yields a framework *Error; default is 400: "+strings.Join(codes, ","), "a fasthttp error class is passed on unmapped, or the default is not 400: "+strings.Join(codes, ","))
+		r.check(okAll && has400 && len(leaves) >= 6, "serverErrorHandler:mapping", r.pos(eh[0].Instr), "every branch yields a framework *Error; default is 400: "+strings.Join(codes, ","), "a fasthttp error class is passed on unmapped, or the default is not 400: "+strings.Join(codes, ","))
 	})
 
 	r.rule("R7", "serverErrorHandler classifies by error identity, never by the message (the message of a parse error quotes the request); where a message test exists, every path to it has first evaluated every errors.As / errors.Is test (E1)", func() {
